@@ -197,7 +197,10 @@ def bingham_gradient(lam, scatter_eig, idx=None, tol_=1e-6):
     g = RD.bingham_grad_log_norm(lam)
     # every moment equation relative to its own scatter eigenvalue (an absolute criterion says nothing about the
     # small eigenvalues, i.e. about the large concentrations)
-    if np.abs(g - scatter_eig).max() > tol_ or np.abs((g - scatter_eig) / scatter_eig).max() > 1e-5:
+    # nearly tied eigenvalues: the double-precision normaliser (divided differences) cancels; its amplification
+    # factor (sum of |terms| / |sum|) bounds the digits that any float64 implementation loses
+    amp = max(1.0, RD.bingham_amplification(lam) / 100.0)
+    if np.abs(g - scatter_eig).max() > tol_ * amp or np.abs((g - scatter_eig) / scatter_eig).max() > 1e-5 * amp:
         return (f'Bingham eigenvalues {lam} do not solve grad log c(lambda) = scatter eigenvalues '
                 f'{scatter_eig} (gradient {g})')
     return None
